@@ -233,3 +233,230 @@ func anyFieldName(fa *ssa.FieldAddr) (string, bool) {
 	}
 	return st.Field(fa.Field).Name(), true
 }
+
+// chanField: v is a load of field F of a *Processor (through captured
+// variables as well); returns F.
+func procField(v ssa.Value) string {
+	u, ok := v.(*ssa.UnOp)
+	if !ok || u.Op != token.MUL {
+		return ""
+	}
+	fa, ok := u.X.(*ssa.FieldAddr)
+	if !ok || !isNamed(fa.X.Type(), modPath+"/concurrent", "Processor") {
+		return ""
+	}
+	name, _ := anyFieldName(fa)
+	return name
+}
+
+// ruleNoSendAfterDone: the result channel is closed by a single goroutine
+// once the workers' WaitGroup is done. A worker therefore must not send on
+// that channel after its wg.Done() — counting deferred functions in the
+// order they run (last registered first). Otherwise the closer can close
+// the channel while the worker is still delivering a result.
+func ruleNoSendAfterDone(c *Ctx, rule string) {
+	sp := c.SPkgs[c.pkg("concurrent").PkgPath]
+	// the channel field closed after wg.Wait()
+	closed := ""
+	for _, f := range srcFuncs(sp) {
+		var sawWait bool
+		for _, b := range f.Blocks {
+			for _, ins := range b.Instrs {
+				if call, ok := ins.(*ssa.Call); ok {
+					if g := call.Call.StaticCallee(); g != nil && g.Name() == "Wait" && g.Signature.Recv() != nil && isNamed(g.Signature.Recv().Type(), "sync", "WaitGroup") && f.Parent() != nil {
+						sawWait = true
+					}
+					if bi, ok := call.Call.Value.(*ssa.Builtin); ok && bi.Name() == "close" && sawWait {
+						if n := procField(call.Call.Args[0]); n != "" {
+							closed = n
+						}
+					}
+				}
+			}
+		}
+	}
+	if closed == "" {
+		c.triv(rule, "concurrent/closer-after-wait", token.NoPos, "no channel is closed by a goroutine after WaitGroup.Wait (other closing discipline; see closeonce)")
+		return
+	}
+	isDone := func(ins ssa.Instruction) bool {
+		ci, ok := ins.(ssa.CallInstruction)
+		if !ok {
+			return false
+		}
+		g := ci.Common().StaticCallee()
+		return g != nil && g.Name() == "Done" && g.Signature.Recv() != nil && isNamed(g.Signature.Recv().Type(), "sync", "WaitGroup")
+	}
+	isSend := func(ins ssa.Instruction) bool {
+		s, ok := ins.(*ssa.Send)
+		return ok && procField(s.Chan) == closed
+	}
+	find := func(f *ssa.Function, pred func(ssa.Instruction) bool) []ssa.Instruction {
+		var out []ssa.Instruction
+		for _, b := range f.Blocks {
+			for _, ins := range b.Instrs {
+				if _, isDefer := ins.(*ssa.Defer); isDefer {
+					continue
+				}
+				if pred(ins) {
+					out = append(out, ins)
+				}
+			}
+		}
+		return out
+	}
+	n := 0
+	for _, g := range srcFuncs(sp) {
+		if goIns, _ := spawnedInLoop(g); goIns == nil {
+			// also single goroutines: is g the target of any go statement?
+			if g.Parent() == nil {
+				continue
+			}
+			isGo := false
+			for _, b := range g.Parent().Blocks {
+				for _, ins := range b.Instrs {
+					if gi, ok := ins.(*ssa.Go); ok {
+						if mc, ok := gi.Call.Value.(*ssa.MakeClosure); ok && mc.Fn == g {
+							isGo = true
+						}
+					}
+				}
+			}
+			if !isGo {
+				continue
+			}
+		}
+		// execution segments: body, then deferred closures last-registered first
+		var defers []*ssa.Function
+		for _, b := range g.Blocks {
+			for _, ins := range b.Instrs {
+				if d, ok := ins.(*ssa.Defer); ok {
+					if mc, ok := d.Call.Value.(*ssa.MakeClosure); ok {
+						if df, ok := mc.Fn.(*ssa.Function); ok {
+							defers = append(defers, df)
+						}
+					}
+				}
+			}
+		}
+		segs := []*ssa.Function{g}
+		for i := len(defers) - 1; i >= 0; i-- {
+			segs = append(segs, defers[i])
+		}
+		doneSeg := -1
+		var doneIns ssa.Instruction
+		for i, s := range segs {
+			if d := find(s, isDone); len(d) > 0 && doneSeg < 0 {
+				doneSeg, doneIns = i, d[0]
+			}
+		}
+		if doneSeg < 0 {
+			continue
+		}
+		n++
+		c.Funcs[funcName(g)] = true
+		key := fmt.Sprintf("%s/no-send-on-%s-after-Done", funcName(g), closed)
+		var late ssa.Instruction
+		for i, s := range segs {
+			for _, snd := range find(s, isSend) {
+				if i > doneSeg || (i == doneSeg && instrAfter(doneIns, snd)) {
+					late = snd
+				}
+			}
+		}
+		if late != nil {
+			c.bad(rule, key, late.Pos(), fmt.Sprintf("the worker can send on %s at %s after its wg.Done() at %s (deferred functions run last-registered first): the closer goroutine, released by that Done, may close the channel first — panic: send on closed channel", closed, c.pos(late.Pos()), c.pos(doneIns.Pos())))
+		} else {
+			c.ok(rule, key, doneIns.Pos(), "every send on "+closed+" precedes the worker's wg.Done() in execution order, deferred functions included")
+		}
+	}
+	if n == 0 {
+		c.und(rule, "concurrent/worker-done", token.NoPos, "no goroutine calling WaitGroup.Done found")
+	}
+}
+
+// ruleBroadcast: every put into the promise's mailbox by a settling
+// function is followed, on every path to its return, by Cond.Broadcast — a
+// Signal wakes only one of several waiters and the rest sleep forever.
+func ruleBroadcast(c *Ctx, rule string) {
+	pkgPath := modPath + "/concurrent"
+	sp := c.SPkgs[c.pkg("concurrent").PkgPath]
+	// is there a condition variable at all?
+	usesCond := false
+	n := 0
+	condCall := func(ins ssa.Instruction, name string) bool {
+		ci, ok := ins.(ssa.CallInstruction)
+		if !ok {
+			return false
+		}
+		g := ci.Common().StaticCallee()
+		return g != nil && g.Name() == name && g.Signature.Recv() != nil && isNamed(g.Signature.Recv().Type(), "sync", "Cond")
+	}
+	for _, f := range srcFuncs(sp) {
+		for _, b := range f.Blocks {
+			for _, ins := range b.Instrs {
+				if condCall(ins, "Wait") {
+					usesCond = true
+				}
+			}
+		}
+	}
+	if !usesCond {
+		c.triv(rule, "concurrent.Promise/no-condition-variable", token.NoPos, "waiters do not sleep on a condition variable")
+		return
+	}
+	for _, f := range srcFuncs(sp) {
+		if f.Signature.Recv() == nil || !isNamed(f.Signature.Recv().Type(), pkgPath, "Promise") {
+			continue
+		}
+		// waiters themselves re-put without needing to wake anybody: skip functions that Wait on the cond
+		waits := false
+		for _, b := range f.Blocks {
+			for _, ins := range b.Instrs {
+				if condCall(ins, "Wait") {
+					waits = true
+				}
+				if condCall(ins, "Signal") {
+					n++
+					c.bad(rule, fmt.Sprintf("%s/Signal#%d", funcName(f), n), ins.Pos(), "Cond.Signal wakes a single waiter; any number of goroutines may be blocked in Wait on an unset promise, and the woken waiter does not wake the others: they block forever")
+				}
+			}
+		}
+		if waits {
+			continue
+		}
+		for _, b := range f.Blocks {
+			for _, ins := range b.Instrs {
+				snd, ok := ins.(*ssa.Send)
+				if !ok {
+					continue
+				}
+				u, ok := snd.Chan.(*ssa.UnOp)
+				if !ok {
+					continue
+				}
+				if name, ok := fieldOf(u.X, pkgPath, "Promise"); !ok || name != "message" {
+					continue
+				}
+				n++
+				c.Funcs[funcName(f)] = true
+				key := fmt.Sprintf("%s/put-then-Broadcast", funcName(f))
+				okAll := true
+				for _, rb := range f.Blocks {
+					ret, isRet := rb.Instrs[len(rb.Instrs)-1].(*ssa.Return)
+					if !isRet || !reachesInstr(snd, ret) {
+						continue
+					}
+					if !mustPassBetween(snd, ret, func(i ssa.Instruction) bool { return condCall(i, "Broadcast") }) {
+						okAll = false
+					}
+				}
+				if okAll {
+					c.ok(rule, key, snd.Pos(), "every path from the put to the return broadcasts on the condition variable")
+				} else {
+					c.bad(rule, key, snd.Pos(), "a message is put into the mailbox but some path returns without Cond.Broadcast: goroutines already blocked in Wait are never woken")
+				}
+			}
+		}
+	}
+}
